@@ -6,12 +6,12 @@ El(i, b) == [id |-> i, body |-> b]
 SeqsUpTo(S, n) == UNION {[1..k -> S] : k \in 0..n}
 NoEls == <<>>
 \* single call with id i1: every id relation x body
-SingleDocs == {[k |-> "object", els |-> <<El(i, b)>>] : i \in {"i1", "i2", "null", "s1", "i0"}, b \in {"result", "error", "both", "neither"}}
+SingleDocs == {[k |-> "object", els |-> <<El(i, b)>>] : i \in {"i1", "i2", "null", "s1", "i0", "btrue", "f1_0"}, b \in {"result", "error", "both", "neither"}}
               \cup {[k |-> x, els |-> NoEls] : x \in {"notjson", "scalar"}} \cup {[k |-> "array", els |-> <<El("i1", "result")>>]}
 \* batch of calls i1..in (+ notifications): every array over the element alphabet
 ElemsQuick == {El("i1", "result"), El("i1", "error"), El("i2", "result"), El("i3", "result"), El("s1", "result"),
-               El("i9", "result"), El("null", "result"), El("null", "error"), El("i2", "both")}
-ElemsFull == [id : {"i1", "i2", "i3", "i4", "s1", "s2", "i9", "null"}, body : {"result", "error"}] \cup {El("i2", "both"), El("i3", "neither")}
+               El("i9", "result"), El("null", "result"), El("null", "error"), El("i2", "both"), El("btrue", "result")}
+ElemsFull == [id : {"i1", "i2", "i3", "i4", "s1", "s2", "i9", "null"}, body : {"result", "error"}] \cup {El("i2", "both"), El("i3", "neither"), El("btrue", "result"), El("f1_0", "result")}
 ObjDocs == {[k |-> "object", els |-> <<El(i, b)>>] : i \in {"null", "i1"}, b \in {"error", "result", "both"}}
            \cup {[k |-> x, els |-> NoEls] : x \in {"notjson", "scalar"}}
 CallSeqs3 == {<<"i1", "i2", "i3">>, <<"i1", "notif", "i2">>, <<"i1">>}
